@@ -25,29 +25,34 @@ def _read(path):
 
 def run_all(validate=None):
     """Regenerate every Generated/*.lean.  Never raises: a generator that meets a construct outside
-    its whitelist (or whose output does not compile, `validate(module) -> (rc, log)`) leaves its file
-    as it was and reports `error`; only the properties whose theorems import that file lose their
-    tie.  Constants.lean isolates per fact (see constants.py)."""
+    its whitelist (or whose output does not compile, `validate(module) -> (rc, log)`) leaves its
+    file(s) as they were and reports `error`; only the properties whose theorems import that file
+    lose their tie.  Constants.lean isolates per fact (see constants.py)."""
     from . import constants, lifecycle, checkgen
     out = {}
     gen = os.path.join(common.LEAN_DIR, 'Sparrow', 'Generated')
     for name, mod in (('Constants', constants), ('Lifecycle', lifecycle), ('Check', checkgen)):
-        path = os.path.join(gen, name + '.lean')
         try:
             text, facts = mod.generate()
         except Exception as e:
             out[name] = {'changed': False, 'facts': None, 'error': repr(e)}
             continue
-        old = _read(path)
-        changed = _write_if_changed(path, text)
+        files = {name: text}
+        if name == 'Check':
+            # the parser of the `checkcfg` line protocol is generated together with Cfg
+            files['CheckParse'] = checkgen.PARSER_TEXT
+        old = {k: _read(os.path.join(gen, k + '.lean')) for k in files}
+        changed = False
+        for k, v in files.items():
+            changed = _write_if_changed(os.path.join(gen, k + '.lean'), v) or changed
         out[name] = {'changed': changed, 'facts': facts}
         if changed and validate is not None:
-            rc, log = validate('Sparrow.Generated.' + name)
+            rc, log = validate('Sparrow.Generated.' + ('CheckParse' if name == 'Check' else name))
             if rc != 0:
-                if old is not None:
-                    with open(path, 'w') as f:
-                        f.write(old)
+                for k, v in old.items():
+                    if v is not None:
+                        with open(os.path.join(gen, k + '.lean'), 'w') as f:
+                            f.write(v)
                 out[name] = {'changed': False, 'facts': None,
                              'error': 'generated %s.lean does not compile: %s' % (name, log[-600:])}
-    _write_if_changed(os.path.join(gen, 'CheckParse.lean'), checkgen.PARSER_TEXT)
     return out
